@@ -167,6 +167,10 @@ PROPS['C17']={
 PROPS['C17']['obligations']+=[{'name':'adversarial_'+w,'module':'harness.C14','cls':'DecodeAdversarial','quick':{'what':w,'nbytes':1,'prop':'C17'},'thorough':{'what':w,'nbytes':2,'prop':'C17'},'validate':{'quick':6,'thorough':24},
    **({'tier_only':'thorough'} if w in ('layout','statement_naive','metablock_layout','statement_slsa1','predicate_slsa2') else {})} for w in ADV_TYPES]
 PROPS['C17']['obligations']+=[{'name':'interchange_entry_points','module':'harness.wire','cls':'EntryPoints','quick':{},'thorough':{},'validate':{'quick':8,'thorough':8}}]
+MO_TYPES=['link','metablock_link','layout','pubkey','byproducts','statement_link','statement_slsa1','predicate_slsa1','step']
+PROPS['C17']['obligations']+=[{'name':'member_order_'+w,'module':'harness.C14','cls':'MemberOrder','quick':{'what':w},'thorough':{'what':w},'validate':{'quick':8,'thorough':24},
+   **({'tier_only':'thorough'} if w in ('layout','statement_slsa1','predicate_slsa1','step') else {})} for w in MO_TYPES]
+PROPS['C17']['bounds_statement']+='  Member order: one object of a valid document written with its members reversed / rotated / with one member doubled into two members whose keys differ in one free byte; the text channels see the document order, the tree channel the key order of serde_json::Map; they must agree.'
 PROPS['C17']['bounds_statement']+='  Also documents that are NOT the output of the serialiser: every single-node mutation of a valid document of each type (see C14 decode obligations) must be accepted or rejected alike on all four channels and decode to equal values.'
 PROPS['C16']={
  'bounds_statement':'same pipeline as C17, asserting serialise -> parse = identity (value equality through the crate\'s own PartialEq-equivalent structure) for every wire type incl. every rule form with keyword-like operands (IN, WITH, FROM, MATCH, trailing-slash prefixes), optional fields present/absent, empty collections, key table self-consistency; byte-identical re-serialisation follows from value equality because serialisation is a function of the value.',
